@@ -69,7 +69,12 @@ CLAIM = dict(
          'info omitted and one info dict reused, arguments bit-identical afterwards, no aliasing, restart through the returned '
          'object); SCALES / DEGENERATE (single sample, mode size 1, d = 2, duplicates only, (w, lamb) * 2^k for k = -1000 .. 940 '
          'exactly invariant, y * 2^+-300: descent / shape / info in the search only - the normal equations are then numerically '
-         'singular, so no core-by-core correspondence). Undocumented forms that RAISE on the unchanged tree and are therefore '
+         'singular, so no core-by-core correspondence). WEIGHTS WITH EXACT ZEROS (all samples of one slice masked out, or every '
+         'weight 0; the theorems need only w >= 0 and a sample per slice - the minimiser of such a slice is 0) in correspondence and '
+         'search; BOOLEAN OPTIONS in every false (False / 0 / None / np.False_) and true (True / 1 / np.True_) form: '
+         'allow_skip_cores on data with a slice without sample (constant rank and r given; the model gets the truth value), log, '
+         'use_stab, allow_swap (false forms), log of als_func. '
+         'Undocumented forms that RAISE on the unchanged tree and are therefore '
          'only required not to return a different answer: Y0 / A0 with int-dtype cores (UFuncTypeError), w as a list (TypeError), '
          'a, b as 0-d arrays (TypeError); float32 cores return a float32 result (kept out). The rank-adaptive mode is required '
          'to reject missing slice data as well. '
@@ -165,6 +170,9 @@ STOP = {'nswp': 1, 'e': 2, 'e_vld': 3, 'cb': 4}
 # answers of a callback: true values stop the run, false values do not (als docstring; /repo d12f1ba)
 CB_TRUE = [('True', True), ('1', 1), ('np.bool_(True)', np.bool_(True)), ('np.float64(0.5)', np.float64(0.5))]
 CB_FALSE = [('False', False), ('0', 0), ('None', None), ('np.bool_(False)', np.bool_(False))]
+# forms of a boolean option: the false forms must act as False, the true forms as True
+FLAG_FALSE = [('False', False), ('0', 0), ('None', None), ('np.False_', np.bool_(False))]
+FLAG_TRUE = [('True', True), ('1', 1), ('np.True_', np.bool_(True))]
 
 
 # ---------------------------------------------------------------------------------------------- literals
@@ -312,8 +320,19 @@ def gen_case(rng, family=None, d=None, thorough=False):
         w = [rng.choice(WS) for _ in range(m)]
     else:
         w = None
+    if family == 'zerow':
+        # weights used as a mask: exact zeros; ALL samples of one slice (k0, i0) carry weight 0 (the slice HAS samples);
+        # sometimes every weight is 0 (only the regulariser remains)
+        w = [rng.choice(WS + [Fraction(0)]) for _ in range(m)]
+        k0 = 1 if rng.random() < 0.5 else rng.randrange(d)
+        i0 = rng.randrange(shape[k0])
+        w = [Fraction(0) if I[j][k0] == i0 else w[j] for j in range(m)]
+        if rng.random() < 0.15:
+            w = [Fraction(0)] * m
+        finfo = dict(k0=k0, i0=i0, zero_weights=sum(1 for v in w if v == 0))
     return dict(family=family, shape=shape, I=I, y=y, w=w, Y0=[G.tolist() for G in Y0], lamb=rng.choice(LAMBS),
-                finfo=finfo, nswp=rng.choice([1, 1, 2, 3]), skip=(family == 'missing' and rng.random() < 0.6))
+                finfo=finfo, nswp=rng.choice([1, 1, 2, 3]),
+                skip=((family == 'missing' and rng.random() < 0.6) or (family == 'zerow' and rng.random() < 0.5)))
 
 
 # ---------------------------------------------------------------------------------------------- implementation runs
@@ -437,7 +456,7 @@ def stream_opt_core(R, ctx, tn):
     for t in range(N):
         r1, r2, n = rng.randint(1, 3), rng.randint(1, 3), rng.randint(1, 4)
         m = rng.randint(1, 9)
-        fam = rng.choice(['generic', 'single0', 'singlep', 'missing', 'dup', 'weights'])
+        fam = rng.choice(['generic', 'single0', 'singlep', 'missing', 'dup', 'weights', 'zerow', 'zerow'])
         i = [rng.randrange(n) for _ in range(m)]
         if fam.startswith('single') and n >= 2:
             i0 = rng.randrange(n)
@@ -455,6 +474,9 @@ def stream_opt_core(R, ctx, tn):
             i[a], Yl[a], Yr[a] = i[b], list(Yl[b]), list(Yr[b])
         y = [rng.randint(-3, 3) for _ in range(m)]
         w = [rng.choice(WS) for _ in range(m)] if (fam == 'weights' or rng.random() < 0.3) else None
+        if fam == 'zerow':
+            i0 = i[rng.randrange(m)]
+            w = [Fraction(0) if i[j] == i0 else rng.choice(WS + [Fraction(0)]) for j in range(m)]
         lamb = rng.choice(LAMBS)
         with warnings.catch_warnings():
             warnings.simplefilter('ignore')
@@ -591,6 +613,23 @@ def stream_als_f(R, ctx, tn):
             # a stop reason set in front of the loop is kept when the callback returns True after the first sweep
             i1 = run_als(tn, c, nswp=0, cb=lambda Y, info, opts: True)
             add(c, i1, als_f_term(c, None, 0, t0=1), 'nswp0+cb', t0=1)
+    # weights containing exact zeros (all samples of one slice masked out), with and without allow_skip_cores
+    for t in range(24 if ctx['thorough'] else 8):
+        c = gen_case(rng, family='zerow', d=[3, 2, 3, 4][t % 4])
+        add(c, run_als(tn, c), als_f_term(c, None, c['nswp']), 'zero weights')
+        if t % 2 == 0:
+            m = len(c['I'])
+            perm = list(range(m))
+            rng.shuffle(perm)
+            Ip, yp, wp = [c['I'][j] for j in perm], [c['y'][j] for j in perm], [c['w'][j] for j in perm]
+            add(c, run_als(tn, c, I=Ip, y=yp, w=wp), als_f_term(c, None, c['nswp'], I=Ip, y=yp, w=wp), 'zero weights, permuted', perm=perm)
+    # allow_skip_cores in every false / true form on data with a slice without sample: the model gets its truth value
+    for t in range(12 if ctx['thorough'] else 4):
+        c = gen_case(rng, family='missing', d=[3, 2, 3, 4][t % 4])
+        for name, val in (FLAG_FALSE[t % len(FLAG_FALSE)], FLAG_FALSE[(t + 1) % len(FLAG_FALSE)], FLAG_TRUE[t % len(FLAG_TRUE)]):
+            c2 = dict(c, skip=bool(val))
+            add(c2, call_als(tn, canon_kw(c, nswp=c['nswp'], allow_skip_cores=val)), als_f_term(c2, None, c['nswp']),
+                'allow_skip_cores form', flag=name)
     # cross-cutting families: the implementation is called in another argument form / on reused objects / with an exact
     # power-of-two rescaling of (w, lamb) / on degenerate shapes; the model evaluates the canonical input
     for t in range(24 if ctx['thorough'] else 8):
@@ -1404,6 +1443,78 @@ def oracle_wlamb_scale(tn, c):
     return None
 
 
+def oracle_flags(tn, c):
+    """c: data with a slice without sample.  Every boolean option of als in its false forms (False / 0 / None / np.False_)
+    acts as False and in its true forms (True / 1 / np.True_) as True."""
+    import contextlib
+    import io
+    d = len(c['shape'])
+    Y0 = [np.array(G, dtype=float) for G in c['Y0']]
+    unc = [(k, i) for k in range(d) for i in range(c['shape'][k]) if i not in {row[k] for row in c['I']}]
+    if not unc:
+        return None
+    modes = [('constant rank', {})] + ([('rank-adaptive', dict(r=2))] if d >= 3 else [])
+    for mode, extra in modes:
+        for name, val in FLAG_FALSE:
+            res = call_als(tn, canon_kw(c, nswp=1, allow_skip_cores=val, **extra), floor=False)
+            if res['status'] != 1:
+                return dict(what=f'als ({mode}): missing slice data is accepted when allow_skip_cores is the false value {name} '
+                                 '(ValueError required unless explicitly allowed)', got=res.get('status'), expected=1, flag=name, mode=mode)
+        for name, val in FLAG_TRUE:
+            res = call_als(tn, canon_kw(c, nswp=1, allow_skip_cores=val, **extra), floor=False)
+            if res['status'] != 0:
+                return dict(what=f'als ({mode}): allow_skip_cores given as the true value {name} does not allow missing slice data: '
+                                 + res.get('error', ''), flag=name, mode=mode)
+            if mode == 'constant rank':
+                if [G.shape for G in res['cores']] != [G.shape for G in Y0]:
+                    return dict(what='als changed the shape / ranks of the initial approximation', flag=name)
+                for k, i in unc:
+                    if not np.array_equal(res['cores'][k][:, i, :], Y0[k][:, i, :]):
+                        return dict(what='allow_skip_cores: an uncovered slice was modified', got=[k, i], flag=name)
+    # log / use_stab / allow_swap: the false forms give the canonical answer; log in a true form only prints
+    cs = dict(c, skip=True)
+    ref = call_als(tn, canon_kw(cs, nswp=2), floor=False)
+    refa = call_als(tn, canon_kw(cs, nswp=1, r=2), floor=False) if d >= 3 else None
+    if ref['status'] != 0:
+        return None
+    for name, val in FLAG_FALSE + FLAG_TRUE:
+        with contextlib.redirect_stdout(io.StringIO()):
+            res = call_als(tn, canon_kw(cs, nswp=2, log=val), floor=False)
+        ok, why = cores_close(res.get('cores', []), ref['cores'], 1e-12)
+        if not ok:
+            return dict(what=f'als: log={name} changes the result or raises: ' + res.get('error', ''), got=why, flag=name)
+    for name, val in FLAG_FALSE:
+        if refa is not None and refa['status'] == 0:
+            for opt in ('use_stab', 'allow_swap'):
+                res = call_als(tn, canon_kw(cs, nswp=1, r=2, **{opt: val}), floor=False)
+                ok, why = cores_close(res.get('cores', []), refa['cores'], 1e-12)
+                if not ok:
+                    return dict(what=f'als (rank-adaptive): {opt} given as the false value {name} changes the result or raises: '
+                                     + res.get('error', ''), got=why, flag=name, option=opt)
+    return None
+
+
+def oracle_flags_func(tn, c):
+    """als_func: log in every false / true form gives the canonical answer"""
+    import contextlib
+    import io
+    ref = run_als_func_cheb(tn, c, nswp=2, floor=False)
+    if ref['status'] != 0:
+        return None
+    for name, val in FLAG_FALSE + FLAG_TRUE:
+        try:
+            with warnings.catch_warnings(), contextlib.redirect_stdout(io.StringIO()):
+                warnings.simplefilter('ignore')
+                Y = tn.als_func(np.array(c['X'], dtype=float), np.array(c['y'], dtype=float), [np.array(G, dtype=float) for G in c['A0']],
+                                c['a'], c['b'], nswp=2, e=None, info={}, lamb=float(c['lamb']), log=val)
+        except Exception as ex:  # noqa
+            return dict(what=f'als_func: log={name} raises: ' + repr(ex)[:150], flag=name)
+        ok, why = cores_close(Y, ref['cores'], 1e-12)
+        if not ok:
+            return dict(what=f'als_func: log={name} changes the result', got=why, flag=name)
+    return None
+
+
 def oracle_adaptive(tn, c, r):
     # missing slice data must be rejected in the rank-adaptive mode too (ValueError unless allow_skip_cores)
     d = len(c['shape'])
@@ -1571,6 +1682,32 @@ def search(R, ctx, deep, hints):
             push('als', jcase(c), dict(what='oracle raised: ' + repr(ex)[:200]))
     # cross-cutting families: argument forms, histories on reused objects, scales and degenerate shapes
     xr = C.Rng(4242 + ctx['seed'] % 1000)
+    # weights with exact zeros (a whole slice masked out, k0 = 1 = the core updated last in half of the cases)
+    for t in range(16 if deep else 4):
+        if len(fails) >= 5:
+            break
+        c = gen_case(xr, family='zerow', d=[3, 2, 3, 4][t % 4])
+        n_eval += 1
+        try:
+            push('als', jcase(c), oracle_als(tn, c))
+        except Exception as ex:  # noqa
+            push('als', jcase(c), dict(what='oracle raised: ' + repr(ex)[:200]))
+    # boolean options in every false / true form
+    for t in range(6 if deep else 2):
+        if len(fails) >= 5:
+            break
+        c = gen_case(xr, family='missing', d=[3, 2, 4][t % 3])
+        n_eval += 1
+        try:
+            push('flags', jcase(c), oracle_flags(tn, c))
+        except Exception as ex:  # noqa
+            push('flags', jcase(c), dict(what='flags oracle raised: ' + repr(ex)[:200]))
+    cf = gen_cheb_case(xr, box=BOXES[1])
+    n_eval += 1
+    try:
+        push('flags_func', jcheb(cf), oracle_flags_func(tn, cf))
+    except Exception as ex:  # noqa
+        push('flags_func', jcheb(cf), dict(what='flags oracle raised: ' + repr(ex)[:200]))
     xfams = ['generic', 'weights', 'dup', 'singlep']
     for t in range(12 if deep else 3):
         if len(fails) >= 5:
@@ -1659,6 +1796,11 @@ def replay(data):
     elif kind == 'func':
         c = dict(inp, lamb=Fraction(inp['lamb']))
         f = oracle_func(tn, c)
+    elif kind == 'flags':
+        c = dict(inp, lamb=Fraction(inp['lamb']), w=[Fraction(v) for v in inp['w']] if inp.get('w') else None)
+        f = oracle_flags(tn, c)
+    elif kind == 'flags_func':
+        f = oracle_flags_func(tn, dict(inp, lamb=Fraction(inp['lamb'])))
     elif kind in ('forms', 'history', 'wlamb', 'degenerate'):
         c = dict(inp, lamb=Fraction(inp['lamb']), w=[Fraction(v) for v in inp['w']] if inp.get('w') else None)
         f = dict(forms=oracle_forms, history=oracle_history, wlamb=oracle_wlamb_scale, degenerate=oracle_degenerate)[kind](tn, c)
